@@ -558,6 +558,7 @@ class BlockUploadStream(io.RawIOBase):
                 self._ackseq = seqno
             else:
                 # Wrong sequence number
+                self._skip_block()
                 response = self._retransmit()
         res_command, = struct.unpack_from("B", response)
         if self._ackseq >= self.blksize or res_command & NO_MORE_BLOCKS:
@@ -578,6 +579,23 @@ class BlockUploadStream(io.RawIOBase):
                 logger.info("CRC is OK")
         self.pos += len(data)
         return data
+
+    def _skip_block(self):
+        """Ignore what is left of the current sub-block after a sequence error.
+
+        The server keeps sending until the end of the sub-block. Confirming
+        before that would make it start over while those segments are still
+        on their way, and they would be taken for the retransmission.
+        """
+        try:
+            while True:
+                response = self.sdo_client.read_response()
+                res_command, = struct.unpack_from("B", response)
+                if res_command & NO_MORE_BLOCKS or res_command & 0x7F >= self.blksize:
+                    break
+        except SdoCommunicationError:
+            # Nothing more is coming
+            pass
 
     def _retransmit(self):
         logger.info("Only %d sequences were received. Requesting retransmission",
